@@ -1,0 +1,14 @@
+//go:build verif
+
+package inverted
+
+// VerifToByteSortable exposes the unexported sortable key encoder to the
+// verification harnesses.
+func VerifToByteSortable[T Invertable](v T) ([]byte, error) {
+	return toByteSortable(v)
+}
+
+// VerifFromByteSortable exposes the unexported sortable key decoder.
+func VerifFromByteSortable[T Invertable](b []byte, v *T) error {
+	return fromByteSortable(b, v)
+}
